@@ -411,7 +411,41 @@ func c07BlindsUnset(c *h.Ctx) {
 	// in two of three cases the table is closed / released in the same wait, and then nothing may open
 	if !c.Thorough() || c.R.Intn(2) == 0 {
 		bb := int64(20)
-		switch (c.Case / 32) % 3 {
+		switch (c.Case / 32) % 4 {
+		case 3:
+			// a second trigger opens the hand while the first one is still waiting to retry: the level arrives, the hand
+			// is set up again and everybody signals. When the first trigger wakes up it must find the hand running.
+			s.TE.UpdateBlind(1, 0, 0, bb/2, bb)
+			parts := map[string]int{}
+			for i, pl := range cfg.Players {
+				parts[pl.ID] = i
+			}
+			s.TE.SetUpTableGame(1, parts)
+			for _, pl := range cfg.Players {
+				s.TE.PlayerSettlementFinish(pl.ID)
+			}
+			opens, lastGC := 0, 0
+			ids := map[string]bool{}
+			s.WaitFor(5*time.Second, func(e *h.Ev) bool {
+				if e.Kind == h.EvTable && e.T != nil {
+					if e.T.State.GameCount > lastGC {
+						lastGC = e.T.State.GameCount
+					}
+					if gs := e.T.State.GameState; gs != nil && gs.GameID != "" && !ids[gs.GameID] {
+						ids[gs.GameID] = true
+						opens++
+					}
+				}
+				return false
+			}, nil)
+			if opens > 1 || lastGC > 1 {
+				c.Violate("C07/hand-opened-while-previous-unsettled/by-the-waiting-retry", fmt.Sprintf("a second trigger opened hand 1 while the first one was waiting to retry its failed open; 5 s later %d hands (game ids) have been opened, game count %d, and hand 1 was never settled", opens, lastGC), map[string]interface{}{"cfg": cfg, "trace": s.TraceTail(40)})
+				return
+			}
+			if opens == 1 {
+				c.Feature("second-trigger-opened-the-hand-during-the-retry-wait")
+			}
+			return
 		case 1:
 			s.TE.CloseTable()
 			time.Sleep(time.Duration(c.R.Intn(300)) * time.Millisecond)
@@ -652,7 +686,7 @@ func init() {
 		},
 		RequiredFeatures: func(tier string) []string {
 			f := []string{"lifecycle:interval=0", "lifecycle:interval=1", "close-after-set-up", "release-after-set-up", "close-during-continue-delay", "release-during-continue-delay", "break-after-set-up", "double-fire", "paused-after-hand"}
-			f = append(f, "blinds-unset", "opened-by-retry-after-blinds-arrived", "closed-during-open-retry", "released-during-open-retry", "first-open-refused-by-seat-manager", "close-or-release-during-continue-delay-on-a-break", "pause-mid-hand-then-set-up")
+			f = append(f, "blinds-unset", "opened-by-retry-after-blinds-arrived", "closed-during-open-retry", "released-during-open-retry", "second-trigger-opened-the-hand-during-the-retry-wait", "first-open-refused-by-seat-manager", "close-or-release-during-continue-delay-on-a-break", "pause-mid-hand-then-set-up")
 			return f
 		},
 		CaseTimeout: 240e9,
